@@ -36,13 +36,15 @@ type Features struct {
 	ElemAliasing    bool // let x = l[i] / scalar variables stored into lists and mutated afterwards
 	CompoundOnPlace bool // compound assignment on list elements / fields
 	NullLiteral     bool
-	Singletons      bool
-	Triggers        bool
+	// ClosureCapture: function literals read local variables of the function that creates them.
+	ClosureCapture bool
+	Singletons     bool
+	Triggers       bool
 }
 
 // AllFeatures enables everything.
 func AllFeatures() Features {
-	return Features{true, true, true, true, true, true, true, true, true, true, true, true, true, true, true, true, true, true, true, true, true, true, true, true, true, true, true, true}
+	return Features{true, true, true, true, true, true, true, true, true, true, true, true, true, true, true, true, true, true, true, true, true, true, true, true, true, true, true, true, true}
 }
 
 type varInfo struct {
@@ -73,6 +75,7 @@ type Gen struct {
 	loopInTry  bool
 	thrower    string // name of a helper function that may throw ("" = none)
 	closureN   int
+	noAssign   bool // no assignment statements / expressions (bodies of capturing closures)
 	extraFuncs []*Func
 	hasTrigger bool
 	budget     int // remaining statement budget
@@ -662,6 +665,20 @@ func (g *Gen) letStmt(d int) Stmt {
 	t := g.anyType()
 	e := g.expr(t, d)
 	name := g.fresh()
+	if len(g.scopes) > 1 && g.R.Chance(1, 8) {
+		// a local named like a module global of the same type: functions called from here still
+		// mean the global
+		var same []varInfo
+		for _, gv := range g.scopes[0] {
+			if gv.t.Eq(t) {
+				same = append(same, gv)
+			}
+		}
+		if len(same) > 0 {
+			name = fw.Pick(g.R, same).name
+			g.cover("let-shadows-global")
+		}
+	}
 	st := Let{Name: name, V: e}
 	if g.R.Chance(1, 4) || t.K == TOpt {
 		st.Annot = t
@@ -672,6 +689,9 @@ func (g *Gen) letStmt(d int) Stmt {
 }
 
 func (g *Gen) assignStmt(d int) Stmt {
+	if g.noAssign {
+		return nil
+	}
 	vs := g.visible()
 	if len(vs) == 0 {
 		return nil
@@ -961,11 +981,41 @@ func (g *Gen) closureStmts(d int) []Stmt {
 	rt := fw.Pick(g.R, g.scalarTypes())
 	saved := g.scopes
 	savedFn, savedLoop, savedTry := g.inFn, g.loopDepth, g.inTry
-	// closure bodies see module globals and their parameter only
-	g.scopes = [][]varInfo{saved[0], {{"q", pt}}}
+	// closure bodies see module globals and their parameter; with ClosureCapture also the scalar
+	// locals of the creating function (read only: the closure is called at once, see below)
+	// (a global shadowed by a local of the creating function would be that local inside the literal)
+	shadowed := map[string]bool{}
+	for _, sc := range saved[1:] {
+		for _, v := range sc {
+			shadowed[v.name] = true
+		}
+	}
+	var globals []varInfo
+	for _, v := range saved[0] {
+		if !shadowed[v.name] {
+			globals = append(globals, v)
+		}
+	}
+	g.scopes = [][]varInfo{globals, {{"q", pt}}}
+	if g.F.ClosureCapture && g.R.Chance(2, 3) {
+		var captured []varInfo
+		for _, sc := range saved[1:] {
+			for _, v := range sc {
+				if v.name != "q" && (v.t.K == TInt || v.t.K == TFloat || v.t.K == TBool || v.t.K == TStr) {
+					captured = append(captured, v)
+				}
+			}
+		}
+		if len(captured) > 0 {
+			g.cover("closure-capture")
+			g.scopes = [][]varInfo{globals, captured, {{"q", pt}}}
+			g.noAssign = true
+		}
+	}
 	gf := genFn{name: name, ret: rt}
 	g.inFn, g.loopDepth, g.inTry = &gf, 0, 0
 	body := &Block{Tail: g.expr(rt, d-1)}
+	g.noAssign = false
 	g.inFn, g.loopDepth, g.inTry = savedFn, savedLoop, savedTry
 	g.scopes = saved
 	lit := FnLit{Params: []Param{{Name: "q", T: pt}}, Ret: rt, Body: body}
